@@ -724,6 +724,10 @@ class SMemoDict(SV):
         it.memo_mode[k] = "miss"
         try:
             it.run_body(fr.func, [], args)
+        except PyRaise:
+            # an earlier call that raised is not the present call raising; what it stored before raising (if
+            # anything) is still there
+            pass
         finally:
             it.memo_mode.pop(k, None)
         mine = stores[mark:]
@@ -762,6 +766,19 @@ class SMemoDict(SV):
         raise Unsupported("truth of the memo dict %s" % self._key())
 
     def sv_getattr(self, it, name):
+        if name == "get":
+            def get(it_, key, default=None):
+                k = self._key()
+                if it_.memo_mode.get(k) == "miss":
+                    return default
+                for key2, value in reversed(it_.memo_stores.get(k, [])):
+                    if key2 is key:
+                        return value
+                self._frame(it_)
+                if it_.branch(it_.fresh_bool("memo_%s_hit" % self.name)):
+                    return self._earlier(it_, key)
+                return default
+            return Intrinsic("memo.get", get)
         raise Unsupported("method %s of the memo dict %s" % (name, self._key()))
 
 
